@@ -89,6 +89,17 @@ Theorem C01_dump_invariant_implies_L0_invariant : forall t, inv_b t = true -> tw
 Proof. exact inv_b_twf. Qed.
 Print Assumptions C01_dump_invariant_implies_L0_invariant.
 
+(* DataMatrix.__getitem__ (guard chain regenerated from the source): a column object selects that column, a name the
+   column of that name (although a str is a Sequence), an int -- and a bool -- a Row, a slice the rows OSlice takes, a
+   non-empty sequence of names the named columns (keep_only), a sequence holding an int the rows OGetRows takes, an
+   EMPTY sequence all rows and no column (all() of nothing is True: `dm[[]]` is a column selection -- the alphabet
+   declares OGetRows [] out of the model for exactly this reason), anything else KeyError *)
+Theorem C01_getitem_dispatch :
+  map getitem_dispatch [KeyColumn; KeyStr; KeyInt; KeyBool; KeySlice; KeyNames; KeyEmptySeq; KeyInts; KeyTable; KeyOther]
+  = [0; 1; 2; 2; 3; 4; 4; 5; 6; 6]%Z.
+Proof. reflexivity. Qed.
+Print Assumptions C01_getitem_dispatch.
+
 (* SeriesColumns: a series column of depth d is d pseudo-columns name#j of the same table (Spec/SeriesEnc.v), the
    series-specific operations are finite sequences of alphabet operations; so after ANY history that also creates,
    writes, deepens, renames, copies and deletes series columns the invariant holds: one series cell per row, moved,
